@@ -59,6 +59,23 @@ def step (_ : Unit) (ws : List String) : Unit × String :=
       let q := createQuote scheme selfId [selfId] f.content (now / nsPerSec) (now % nsPerSec) f.metrics f.rewards
       let b (x : Bool) : String := if x then "true" else "false"
       some s!"signed={b (checkSigned scheme ids q selfId)} fields=true fresh={b (!hasExpired q.ts now)} storecost={b (verifyForStorecost scheme selfId q f.content now)}"
+    | ["getquote", kind, j, ans, paid, live] => do
+      let _ ← j.toNat?
+      let paid ← paid.toNat?; let live ← live.toNat?
+      let named ← if ["c", "r", "s", "t"].contains kind then some true else if ["p", "k"].contains kind then some false else none
+      let own : List Nat := List.replicate 32 1
+      let m : Metrics := { closeRecordsStored := 3, maxRecords := 16384, receivedPaymentCount := paid, liveTime := live,
+                           networkDensity := none, networkSize := some 7 }
+      let answer ← if ans = "q" then some (MetricsAnswer.metrics m false) else if ans = "e" then some (.metrics m true)
+                   else if ans = "d" then some .dropped else none
+      let now := baseNs.toNat
+      let b (x : Bool) : String := if x then "true" else "false"
+      match getStoreQuote scheme selfId [selfId] (if named then some own else none) answer (now / nsPerSec) (now % nsPerSec) [] with
+      | .recordExists => some "exists peer=self"
+      | .failed => some "failed peer=self"
+      | .quote q =>
+        let c := if q.content = own then "own" else if q.content = zeroName then "zero" else "other"
+        some s!"quote content={c} signed={b (checkSigned scheme ids q selfId)} metrics={b (decide (q.metrics = m) && !hasExpired q.ts now)} storecost={b (verifyForStorecost scheme selfId q (if named then own else zeroName) now)} peer=self"
     | "duty" :: rest => do
       let es ← parseEntries rest
       if es.isEmpty then none else
